@@ -7,7 +7,7 @@ git -C /repo worktree add -q --detach $WT HEAD || exit 2
 (cd $OUT && PYTHONPATH=$WT timeout 600 /venv/bin/python $D/demo.py > $OUT/demo_clean.log 2>&1); c0=$?
 if ! git -C $WT apply $D/patch.diff; then echo "SEED $ID: PATCH DOES NOT APPLY"; git -C /repo worktree remove --force $WT; exit 2; fi
 (cd $OUT && PYTHONPATH=$WT timeout 600 /venv/bin/python $D/demo.py > $OUT/demo_patched.log 2>&1); c1=$?
-PCBASIC_REPO=$WT VERIF_OUT=$OUT timeout 3000 /verif/check $ID --tier ${TIER:-quick} > $OUT/check.log 2>&1; rc=$?
-echo "SEED $ID: demo clean=$c0 patched=$c1 ; check exit=$rc ; $(grep -c '^  rejected' $OUT/check.log) rejected lines; $(grep -m1 -E 'rejected|MACHINERY|KNOWN' $OUT/check.log | cut -c1-220)"
-cp $OUT/check.log $D/check_${TIER:-quick}.log 2>/dev/null
+PCBASIC_REPO=$WT VERIF_OUT=$OUT timeout 3000 /verif/check $ID --tier ${TIER:-quick} --seed ${SEED:-0} > $OUT/check.log 2>&1; rc=$?
+echo "SEED $ID [$(basename $D) seed ${SEED:-0}]: demo clean=$c0 patched=$c1 ; check exit=$rc ; $(grep -c '^  rejected' $OUT/check.log) rejected lines; $(grep -m1 -E 'rejected|MACHINERY|KNOWN' $OUT/check.log | cut -c1-220)"
+cp $OUT/check.log $D/check_${TIER:-quick}.log 2>/dev/null || true
 git -C /repo worktree remove --force $WT; rm -rf $OUT
